@@ -23,20 +23,21 @@ def gen_geometry(rng, ground):
         if tagmode == 'mixed' and rng.random() < 0.5: return None
         return pool.pop()
     z0 = 0.0
-    start = [_d(rng, -2, 2), _d(rng, -2, 2), (rng.choice([0.0, 0.0, 1e-9, -2.8e-17]) if (ground and rng.random() < 0.6) else _d(rng, 1, 4))]
+    dg = rng.choice([4, 7, 9])      # coordinates are written with 11 digits, radii with 8 or more
+    start = [_d(rng, -2, 2, dg), _d(rng, -2, 2, dg), (rng.choice([0.0, 0.0, 1e-9, -2.8e-17]) if (ground and rng.random() < 0.6) else _d(rng, 1, 4, dg))]
     pts = [start]
     for k in range(nw):
-        p1 = pts[-1] if rng.random() < 0.7 else [_d(rng, -3, 3), _d(rng, -3, 3), _d(rng, 1, 5)]
+        p1 = pts[-1] if rng.random() < 0.7 else [_d(rng, -3, 3, dg), _d(rng, -3, 3, dg), _d(rng, 1, 5, dg)]
         if p1 is pts[-1] and k > 0 and rng.random() < 0.35:
             # joined by the fuzzy end matching only: not the same numbers
             p1 = [float('%.9g' % (v + rng.choice([1e-7, -2e-7, 3e-7]))) if (v != 0 or not ground) else v for v in p1]
         ln = _d(rng, 1.5, 4)
         d = np.array([rng.gauss(0, 1), rng.gauss(0, 1), abs(rng.gauss(0, 1)) + 0.4]); d /= np.linalg.norm(d)
-        p2 = [float('%.5g' % (p1[i] + ln * d[i])) for i in range(3)]
+        p2 = [float('%.*g' % (dg + 1, p1[i] + ln * d[i])) for i in range(3)]
         pts.append(p2)
         t = tag()
         nseg = rng.randrange(3, 8)
-        r = _d(rng, 0.0005, 0.004, 3)
+        r = _d(rng, 0.0005, 0.004, rng.choice([3, 7]))
         fields = ([str(t)] if t is not None else []) + [str(nseg)] + [_fmt(v) for v in p1 + p2] + [_fmt(r)]
         opts.append(rng.choice(['-w', '--wire=']) .rstrip('=') )
         opts[-1] = ('--wire=' + ','.join(fields))
@@ -71,7 +72,7 @@ def gen_case(rng, main):
     ground = rng.choice([None, None, 'ideal', 'real', 'two', 'three'])
     gopts, objs = gen_geometry(rng, ground)
     order = auto_tags(objs)
-    opts = ['-f', _fmt(_d(rng, 3, 30, 4))] + gopts
+    opts = ['-f', _fmt(_d(rng, 3, 30, rng.choice([4, 6, 7, 8])))] + gopts      # the option writer prints 8 digits
     tags = [o['atag'] for o in objs]
     wires = [o for o in objs if o['kind'] == 'wire']
     # taper
